@@ -93,6 +93,9 @@ func c01Run(ci any) Result {
 	wfTag := map[bool]string{true: "well-formed-table", false: "table-outside-insert-theorem"}[wf]
 	e := rEchoWarm(c.Routes, c.Warm, []rReq{c.Req}, &cur)
 	tags := []string{wfTag}
+	if rHasReRegistration(c.Routes) {
+		tags = append(tags, "re-registered-route")
+	}
 	if c.Warm > 0 && c.Warm < len(c.Routes) {
 		tags = append(tags, "request-before-later-registrations")
 	}
@@ -143,7 +146,7 @@ func c01Gen(r *rand.Rand, tier string) []any {
 	}
 	var out []any
 	for i := 0; i < tables; i++ {
-		o := rGenOpts{escaped: r.Intn(4) == 0, maxRoute: 8}
+		o := rGenOpts{escaped: r.Intn(4) == 0, maxRoute: 8, dups: r.Intn(4) == 0}
 		routes := rGenTable(r, o)
 		if r.Intn(3) == 0 {
 			r.Shuffle(len(routes), func(a, b int) { routes[a], routes[b] = routes[b], routes[a] })
